@@ -188,14 +188,19 @@ def diff_complete(curve, window, part, nparts):
       if idx % nparts != part:
         continue
       for d2 in range(0, window):
-        for layout in (0, 1, 2):
+        for layout in (0, 1, 2, 3, 4):
           x1, x2 = base + d1, base + d2
           if layout == 0:
             xs, others = [x1, x2], []
           elif layout == 1:
             xs, others = [x1], [x2]
-          else:
+          elif layout == 2:
             xs, others = [x1, base + 5000, x2], [base + 9000]
+          elif layout == 3:
+            # a far key occurs twice in front of the pair
+            xs, others = [base + 5000, base + 7000, base + 5000, x1, x2], []
+          else:
+            xs, others = [base + 5000, base + 5000, x1, base + 7000, x2], [base + 9000]
           L = rec.to_lib(c, w.ec_util)
           bad = _diff_on(L, c, xs, others, md)
           r.ev('diff/%s' % ('within' if 0 < abs(d1 - d2) < md else (
@@ -208,7 +213,8 @@ def diff_complete(curve, window, part, nparts):
             return r
   r.states += 1
   r.sample({'curve': curve, 'window': window, 'max_diff': '0..64', 'layouts':
-            ['two keys', 'key + history key', 'three keys + history key']})
+            ['two keys', 'key + history key', 'three keys + history key',
+             'duplicated far key before the pair (2 variants)']})
   return r
 
 
@@ -411,7 +417,7 @@ def plan(tier, seed):
       T.append(Task('differences-all-pairs', 'diff_complete',
                     {'curve': _spec(c), 'window': 70 if thorough else 34, 'part': part,
                      'nparts': 8},
-                    bound='all (x1,x2) in a window x all max_diff 0..64 x 3 layouts',
+                    bound='all (x1,x2) in a window x all max_diff 0..64 x 5 layouts',
                     weight=65 * 40 * 40 * 3 * 100 / 8))
     T.append(Task('table-histories', 'histories', {'curve': _spec(c),
                                                    'max_depth': 4 if thorough else 3},
